@@ -76,7 +76,7 @@ def render_c06(case, c, seed):
     at = "#[::async_trait::async_trait]\n" if p["async"] == "async_trait" else ""
     sel = p["sel"]
     attr = {"Self": "", "ref": "delegate_by = ref", "Borrow": "delegate_by = Borrow"}[sel]
-    generic = p["extra"] in ("generic-trait", "where")
+    generic = p["extra"] in ("generic-trait", "where", "default-param")
     tgen_decl = ""
     twhere = ""
     targs = ""
@@ -84,11 +84,18 @@ def render_c06(case, c, seed):
         tgen_decl, targs = "<G: ::core::fmt::Debug + Send + Sync + 'static>", "<i32>"
     elif p["extra"] == "where":
         tgen_decl, twhere, targs = "<G>", " where G: ::core::fmt::Debug + Send + Sync + 'static", "<i32>"
+    elif p["extra"] == "default-param":
+        tgen_decl, twhere, targs = "<G = i32>", " where G: ::core::fmt::Debug + Send + Sync + 'static", "<i32>"
+    elif p["extra"] == "lifetime-trait":
+        tgen_decl, targs = "<'t>", "<'static>"
     supers = []
     if p["extra"] == "supertrait":
         supers.append("Sup")
     if sel != "Self":
-        supers.append("'static")
+        # (a trait with a lifetime parameter cannot also be `'static` and be used through `dyn Tr<'t>`: that would
+        #  need `'t: 'static` in any delegation, hand-written ones included)
+        if p["extra"] != "lifetime-trait":
+            supers.append("'static")
         if is_async:
             supers.append("Sync")
     sup = (": " + " + ".join(supers)) if supers else ""
@@ -103,6 +110,12 @@ def render_c06(case, c, seed):
         methods.append(f"    {fnkw} gm<X: ::core::fmt::Debug + Send>(&self, x: X) -> String;")
     if p["extra"] == "borrowed-return":
         methods.append("    fn br<'a>(&'a self, s: &'a str) -> &'a str;")
+    if p["extra"] == "byvalue-method":
+        methods.append("    fn consume(self, x: i32) -> String;")
+    if p["extra"] == "typed-receiver":
+        methods.append(f"    {fnkw} tr(self: &Self, x: i32) -> String;")
+    if p["extra"] == "lifetime-trait":
+        methods.append("    fn lt(&self, s: &'t str) -> &'t str;")
     trait_text = (f"#[::entrait::entrait({attr})]\n{at}pub trait Tr{tgen_decl}{sup}{twhere} {{\n" + "\n".join(methods) + "\n}\n")
 
     # provider impl block for a type; `owner` expression gives the application's name, `me` the identity
@@ -123,6 +136,18 @@ def render_c06(case, c, seed):
             ms.append(method("gx(&self, g: i32)", f'format!("provider:{{}}::gx", {owner_expr})', ['format!("{:?}", g)']))
         if p["extra"] == "generic-method":
             ms.append(method("gm<X: ::core::fmt::Debug + Send>(&self, x: X)", f'format!("provider:{{}}::gm", {owner_expr})', ['format!("{:?}", x)']))
+        if p["extra"] == "byvalue-method":
+            body = logging_body(f'format!("provider:{{}}::consume", {owner_expr})', 'String::from("by-value")', ['format!("{:?}", x)'], False)
+            ms.append(f"    fn consume(self, x: i32) -> String {body}")
+        if p["extra"] == "typed-receiver":
+            ms.append(method("tr(self: &Self, x: i32)", f'format!("provider:{{}}::tr", {owner_expr})', ['format!("{:?}", x)']))
+        if p["extra"] == "lifetime-trait":
+            ms.append(f"""    fn lt(&self, s: &'static str) -> &'static str {{
+        let __f: String = format!("provider:{{}}::lt", {owner_expr});
+        ::vt::emit("enter", &format!("\\"f\\":{{}},\\"deps\\":{{}},\\"args\\":[{{}}]", ::vt::js(&__f), ::vt::js(&{me_expr}), ::vt::js(&s.to_string())));
+        ::vt::emit("exit", &format!("\\"f\\":{{}},\\"val\\":{{}}", ::vt::js(&__f), ::vt::js(&s.to_string())));
+        s
+    }}""")
         if p["extra"] == "borrowed-return":
             ms.append(f"""    fn br<'a>(&'a self, s: &'a str) -> &'a str {{
         let __f: String = format!("provider:{{}}::br", {owner_expr});
@@ -174,6 +199,11 @@ def render_c06(case, c, seed):
         calls.append(("gm", [f"{v}u8"], [str(v)], is_async)); own["gm"] = "provider:Prov::gm"
     if p["extra"] == "borrowed-return":
         calls.append(("br", ['"borrowed"'], ["borrowed"], False)); own["br"] = "provider:Prov::br"
+    if p["extra"] == "typed-receiver":
+        v = rng.randint(1, 99)
+        calls.append(("tr", [str(v)], [str(v)], is_async)); own["tr"] = "provider:Prov::tr"
+    if p["extra"] == "lifetime-trait":
+        calls.append(("lt", ['"lifetime"'], ["lifetime"], False)); own["lt"] = "provider:Prov::lt"
     depsmap = {m: "recv" for m in own}
     recv = "::vt::addr(&*app)" if sel == "Self" else "::vt::addr(&app.inner)"
     for (m, exprs, logged, asy) in calls:
